@@ -96,6 +96,24 @@ struct Built
   std::string label;
 };
 
+//! cylinder radius for a spec (mm): fraction of the largest centred circle that keeps 1.5 voxels from the image edge
+double
+cylinder_radius(const VoxelsOnCartesianGrid<float>& mu, const json& s)
+{
+  const double vx = mu.get_voxel_size().x(), vy = mu.get_voxel_size().y();
+  const double half = std::min(double(mu.get_x_size()) * vx, double(mu.get_y_size()) * vy) / 2. - 1.5 * std::max(vx, vy);
+  return std::max(0., half) * s["R_frac"].get<double>();
+}
+
+//! mu value actually used: capped so that the largest line integral stays below ~8 (exp() stays well inside float)
+double
+mu_value(const VoxelsOnCartesianGrid<float>& mu, const json& s)
+{
+  const double vx = mu.get_voxel_size().x(), vy = mu.get_voxel_size().y();
+  const double diag_mm = std::hypot(double(mu.get_x_size()) * vx, double(mu.get_y_size()) * vy) * 1.2;
+  return std::min(s["mu_max"].get<double>(), 80. / diag_mm);
+}
+
 void
 fill_mu(VoxelsOnCartesianGrid<float>& mu, const json& s)
 {
@@ -103,7 +121,18 @@ fill_mu(VoxelsOnCartesianGrid<float>& mu, const json& s)
   mu.fill(0.F);
   if (mode == "zero")
     return;
-  const double mu_max = s["mu_max"].get<double>();
+  if (mode == "sum")
+    {
+      VoxelsOnCartesianGrid<float> a(mu), b(mu);
+      fill_mu(a, s["a"]);
+      fill_mu(b, s["b"]);
+      auto ia = a.begin_all();
+      auto ib = b.begin_all();
+      for (auto it = mu.begin_all(); it != mu.end_all(); ++it, ++ia, ++ib)
+        *it = *ia + *ib;
+      return;
+    }
+  const double mu_max = mu_value(mu, s);
   if (mode == "random")
     {
       vf::SplitMix g(s["seed"].get<uint64_t>());
@@ -112,7 +141,7 @@ fill_mu(VoxelsOnCartesianGrid<float>& mu, const json& s)
       return;
     }
   // uniform centred cylinder (all planes): voxels whose centre lies within R
-  const double R = s["R_mm"].get<double>();
+  const double R = cylinder_radius(mu, s);
   const float vx = mu.get_voxel_size().x(), vy = mu.get_voxel_size().y();
   for (int z = mu.get_min_z(); z <= mu.get_max_z(); ++z)
     for (int y = mu.get_min_y(); y <= mu.get_max_y(); ++y)
@@ -348,3 +377,684 @@ build(const json& s, Env& env, const Flags& fl)
   return b;
 }
 
+// ---- driving the objects -------------------------------------------------------------------------------------------
+typedef shared_ptr<DataSymmetriesForViewSegmentNumbers> SymPtr;
+
+//! undo/apply through RelatedViewgrams, one call per basic view-segment and TOF bin of the grouping
+std::vector<double>
+pass_viewgrams(const BinNormalisation& N, const SymPtr& sym, const std::vector<double>& x, bool undo, Env& env)
+{
+  ProjDataInMemory pd(env.exam, env.pdi_data);
+  env.ix.vec_to_projdata(pd, x);
+  const ProjDataInfo& p = *env.pdi_data;
+  for (int s = p.get_min_segment_num(); s <= p.get_max_segment_num(); ++s)
+    for (int v = p.get_min_view_num(); v <= p.get_max_view_num(); ++v)
+      {
+        const ViewSegmentNumbers vs(v, s);
+        if (!sym->is_basic(vs))
+          continue;
+        for (int k = p.get_min_tof_pos_num(); k <= p.get_max_tof_pos_num(); ++k)
+          {
+            RelatedViewgrams<float> rv = pd.get_related_viewgrams(ViewgramIndices(v, s, k), sym, false, k);
+            if (undo)
+              N.undo(rv);
+            else
+              N.apply(rv);
+            if (pd.set_related_viewgrams(rv) != Succeeded::yes)
+              error("harness: set_related_viewgrams failed");
+          }
+      }
+  return env.ix.projdata_to_vec(pd);
+}
+
+std::string
+tmp_base()
+{
+  const char* t = std::getenv("VERIF_TMP");
+  static long counter = 0;
+  const std::string dir = t ? std::string(t) : cat("/tmp/verif_", long(getpid()));
+  if (!t)
+    (void)!system(("mkdir -p " + dir).c_str());
+  return cat(dir, "/c13_", long(getpid()), "_", ++counter);
+}
+
+//! undo/apply through the whole-ProjData entry point (sym may be null: the documented default = trivial symmetries)
+std::vector<double>
+pass_whole(const BinNormalisation& N, const SymPtr& sym, const std::vector<double>& x, bool undo, Env& env, bool file_backed)
+{
+  if (!file_backed)
+    {
+      ProjDataInMemory pd(env.exam, env.pdi_data);
+      env.ix.vec_to_projdata(pd, x);
+      if (undo)
+        N.undo(pd, sym);
+      else
+        N.apply(pd, sym);
+      return env.ix.projdata_to_vec(pd);
+    }
+  const std::string base = tmp_base();
+  std::vector<double> out;
+  try
+    {
+      ProjDataInterfile pd(env.exam, env.pdi_data, base + ".hs", std::ios::in | std::ios::out | std::ios::trunc);
+      env.ix.vec_to_projdata(pd, x);
+      if (undo)
+        N.undo(pd, sym);
+      else
+        N.apply(pd, sym);
+      out = env.ix.projdata_to_vec(pd);
+    }
+  catch (...)
+    {
+      std::remove((base + ".hs").c_str());
+      std::remove((base + ".s").c_str());
+      throw;
+    }
+  std::remove((base + ".hs").c_str());
+  std::remove((base + ".s").c_str());
+  return out;
+}
+
+struct Group
+{
+  Flags fl;
+  Built b;
+  SymPtr sym;
+  std::vector<double> U1, A1;
+};
+
+Flags
+flags_of(const json& g)
+{
+  Flags f;
+  f.trivial_class = g["trivial"].get<bool>();
+  for (int i = 0; i < 5; ++i)
+    f.f[i] = !f.trivial_class && g["f"][std::size_t(i)].get<int>() != 0;
+  return f;
+}
+
+//! construction + set_up of one object tree for one grouping ("reason" set when STIR rejects the configuration)
+bool
+make_group(Group& G, const json& spec, Env& env, std::string& reason)
+{
+  try
+    {
+      G.b = build(spec, env, G.fl);
+      if (G.b.norm->set_up(env.exam, env.pdi_data) != Succeeded::yes)
+        {
+          reason = "set_up returned Succeeded::no";
+          return false;
+        }
+      if (!G.b.projectors.empty())
+        G.sym.reset(G.b.projectors[0]->get_symmetries_used()->clone());
+      else if (G.fl.trivial_class)
+        G.sym.reset(new TrivialDataSymmetriesForBins(env.pdi_data));
+      else
+        G.sym.reset(new DataSymmetriesForBins_PET_CartesianGrid(env.pdi_data, env.image, G.fl.f[0], G.fl.f[1], G.fl.f[2], G.fl.f[3], G.fl.f[4]));
+    }
+  catch (const stir_verif::AssertionFailure&)
+    {
+      throw;
+    }
+  catch (const std::exception& e)
+    {
+      reason = e.what();
+      return false;
+    }
+  return true;
+}
+
+bool
+contains_kind(const json& s, const std::string& k)
+{
+  if (s["k"].get<std::string>() == k)
+    return true;
+  if (s["k"].get<std::string>() == "chain")
+    for (const json& m : s["members"])
+      if (contains_kind(m, k))
+        return true;
+  return false;
+}
+
+std::string
+bin_str(const Bin& b)
+{
+  return cat("bin(seg ", b.segment_num(), ", ax ", b.axial_pos_num(), ", view ", b.view_num(), ", tang ", b.tangential_pos_num(), ", tof ", b.timing_pos_num(), ")");
+}
+
+Result
+check(const json& c)
+{
+  Env env{ c, {}, {}, {}, {}, {}, {}, {} };
+  try
+    {
+      env.sc = c20::make_scanner(c["scanner"]);
+      if (env.sc->check_consistency() != Succeeded::yes)
+        return Result::reject("scanner inconsistent");
+      env.pdi_full = vg::make_pdi(env.sc, c["pdi"]);
+      env.pdi_data = env.pdi_full->create_shared_clone();
+      const int dms = c["data_max_seg"].get<int>();
+      if (dms >= 0 && dms < env.pdi_data->get_max_segment_num())
+        env.pdi_data->reduce_segment_range(-dms, dms);
+      env.image = vg::make_image(c["image"], *env.pdi_data, 40);
+    }
+  catch (const stir_verif::AssertionFailure&)
+    {
+      throw;
+    }
+  catch (const std::exception& e)
+    {
+      return Result::reject(std::string("construction rejected: ") + e.what());
+    }
+  env.exam.reset(new ExamInfo);
+  env.exam->imaging_modality = ImagingModality(ImagingModality::PT);
+  env.ix = make_indexer(env.pdi_data);
+  const long N = env.nb();
+  if (N > 80000)
+    return Result::reject("too many bins for this check");
+  const json& spec = c["norm"];
+  const std::string top = spec["k"];
+  const bool tof = env.pdi_data->is_tof_data();
+
+  // ---- object trees, one per grouping ---------------------------------------------------------------------------------
+  std::vector<Group> groups;
+  for (const json& gj : c["groupings"])
+    {
+      Group G;
+      G.fl = flags_of(gj);
+      std::string reason;
+      if (!make_group(G, spec, env, reason))
+        {
+          if (groups.empty())
+            return Result::reject("rejected by STIR: " + reason.substr(0, 70));
+          stats().count("groupings skipped (constructor rejects)");
+          continue;
+        }
+      groups.push_back(std::move(G));
+    }
+  if (groups.empty())
+    return Result::reject("no grouping");
+  Group& G0 = groups[0];
+  const Built& R = G0.b;
+  stats().cls("class " + top);
+  if (top == "chain")
+    stats().cls(cat("chain of ", spec["members"].size()));
+  if (tof)
+    stats().cls(contains_kind(spec, "projdata") ? "TOF data, from-projdata member" : "TOF data");
+  if (env.pdi_data->get_max_segment_num() < env.pdi_full->get_max_segment_num() && contains_kind(spec, "projdata"))
+    stats().cls("factors with more segments than the data");
+  stats().count("bins", N);
+  stats().count("groupings compared", long(groups.size()));
+
+  // ---- data -----------------------------------------------------------------------------------------------------------------
+  std::vector<double> x1(static_cast<std::size_t>(N)), x2(static_cast<std::size_t>(N));
+  {
+    vf::SplitMix g(c["seed_x"].get<uint64_t>());
+    for (long i = 0; i < N; ++i)
+      {
+        x1[std::size_t(i)] = double(float(g.real(5., 20.)));
+        x2[std::size_t(i)] = double(float(g.real(1., 100.)));
+      }
+  }
+  const BinNormalisation& N0 = *G0.b.norm;
+  G0.U1 = pass_viewgrams(N0, G0.sym, x1, true, env);
+  G0.A1 = pass_viewgrams(N0, G0.sym, x1, false, env);
+  const std::vector<double> U2 = pass_viewgrams(N0, G0.sym, x2, true, env);
+  const std::vector<double>&U1 = G0.U1, &A1 = G0.A1;
+
+  // ---- (1) one fixed positive factor array; apply divides by it; it equals the reference ------------------------------------------
+  long n_skip = 0;
+  for (long i = 0; i < N; ++i)
+    {
+      const std::size_t u = std::size_t(i);
+      const Bin& bin = env.ix.bins[u];
+      const double er = R.e[u];
+      if (R.skip[u])
+        {
+          ++n_skip;
+          if (er == 0.)
+            VF_CHECK(U1[u] == 0. && U2[u] == 0., R.label, ": zero-efficiency ", bin_str(bin), " but undo gives ", U1[u], " / ", U2[u]);
+          else if (std::isinf(er))
+            VF_CHECK(A1[u] == 0., R.label, ": zero factor at ", bin_str(bin), " but apply gives ", A1[u]);
+          continue;
+        }
+      const double e1 = U1[u] / x1[u], e2 = U2[u] / x2[u];
+      VF_CHECK(e1 > 0 && std::isfinite(e1), R.label, ": undo multiplies ", bin_str(bin), " by ", e1, " (not a positive factor)");
+      stats().maxi("max rel dev e(x1) vs e(x2)", std::fabs(e1 - e2) / e1);
+      VF_CHECK(std::fabs(e1 - e2) <= TOL_SAME_E * e1, R.label, ": the factor of undo depends on the data at ", bin_str(bin), ": ", e1, " vs ", e2);
+      stats().maxi(R.has_atten ? "max rel dev e vs reference (with attenuation member)" : "max rel dev e vs reference (no projector)", std::fabs(e1 - er) / er);
+      VF_CHECK(std::fabs(e1 - er) <= R.tol_ref * er, R.label, ": undo multiplies ", bin_str(bin), " by ", e1, " but the efficiency is ", er);
+      const double back = A1[u] * e1;
+      stats().maxi("max rel dev apply(x) e vs x", std::fabs(back - x1[u]) / x1[u]);
+      VF_CHECK(std::fabs(back - x1[u]) <= TOL_SAME_E * 2 * x1[u], R.label, ": apply does not divide by the factor of undo at ", bin_str(bin), ": apply(x)=", A1[u],
+               " x=", x1[u], " e=", e1);
+    }
+  stats().count("bins outside the inverse clauses (zero efficiency / zero factor)", n_skip);
+  if (n_skip)
+    stats().cls("labelled: zero efficiencies or zero factors present");
+
+  // ---- (2) inverse ------------------------------------------------------------------------------------------------------------------
+  {
+    const std::vector<double> AU = pass_viewgrams(N0, G0.sym, U1, false, env);
+    const std::vector<double> UA = pass_viewgrams(N0, G0.sym, A1, true, env);
+    for (long i = 0; i < N; ++i)
+      {
+        const std::size_t u = std::size_t(i);
+        if (R.skip[u])
+          continue;
+        stats().maxi("max rel dev apply(undo(x)) vs x", std::max(std::fabs(AU[u] - x1[u]), std::fabs(UA[u] - x1[u])) / x1[u]);
+        VF_CHECK(std::fabs(AU[u] - x1[u]) <= TOL_INVERSE * x1[u], R.label, ": apply(undo(x)) != x at ", bin_str(env.ix.bins[u]), ": ", AU[u], " vs ", x1[u]);
+        VF_CHECK(std::fabs(UA[u] - x1[u]) <= TOL_INVERSE * x1[u], R.label, ": undo(apply(x)) != x at ", bin_str(env.ix.bins[u]), ": ", UA[u], " vs ", x1[u]);
+      }
+  }
+
+  // ---- (5) other groupings and the whole-data entry points ---------------------------------------------------------------------------------
+  const bool file_backed = c["file_backed"].get<bool>();
+  auto compare = [&](const std::vector<double>& a, const std::vector<double>& b, double tol, const std::string& what) -> Result {
+    const bool is_apply = what.compare(0, 5, "apply") == 0;
+    for (long i = 0; i < N; ++i)
+      {
+        const std::size_t u = std::size_t(i);
+        // division by a zero efficiency (apply) or by a zero factor (undo) is outside the property: nothing to compare
+        if (R.skip[u] && (is_apply ? R.e[u] == 0. : std::isinf(R.e[u])))
+          continue;
+        const double d = std::fabs(a[u] - b[u]);
+        if (b[u] != 0)
+          stats().maxi(tol == 0 ? "max rel dev whole-data vs viewgrams (same grouping)" : "max rel dev between groupings", d / std::fabs(b[u]));
+        if (!(d <= tol * std::fabs(b[u])))
+          return Result::fail(cat(R.label, ": ", what, " differ at ", bin_str(env.ix.bins[u]), ": ", a[u], " vs ", b[u]));
+      }
+    return Result::pass();
+  };
+  for (std::size_t gi = 0; gi < groups.size(); ++gi)
+    {
+      Group& G = groups[gi];
+      const BinNormalisation& Ng = *G.b.norm;
+      if (gi > 0)
+        {
+          G.U1 = pass_viewgrams(Ng, G.sym, x1, true, env);
+          G.A1 = pass_viewgrams(Ng, G.sym, x1, false, env);
+          Result r = compare(G.U1, U1, TOL_GROUPING, cat("undo with grouping ", gi, " and with grouping 0"));
+          if (r.failed())
+            return r;
+          r = compare(G.A1, A1, TOL_GROUPING, cat("apply with grouping ", gi, " and with grouping 0"));
+          if (r.failed())
+            return r;
+        }
+      // same object, same grouping, whole-data entry: the same operations -> identical results
+      const bool fb = file_backed && gi == 0;
+      if (fb)
+        stats().cls("whole-data entry on file-backed data");
+      Result r = compare(pass_whole(Ng, G.sym, x1, true, env, fb), G.U1, 0., cat("undo(ProjData) and undo(RelatedViewgrams), grouping ", gi));
+      if (r.failed())
+        return r;
+      r = compare(pass_whole(Ng, G.sym, x1, false, env, false), G.A1, 0., cat("apply(ProjData) and apply(RelatedViewgrams), grouping ", gi));
+      if (r.failed())
+        return r;
+      // default argument (no symmetries given = trivial symmetries), possible when no projector dictates the grouping
+      if (G.b.projectors.empty() || (G.fl.trivial_class))
+        {
+          r = compare(pass_whole(Ng, SymPtr(), x1, true, env, false), G.U1, TOL_GROUPING, cat("undo(ProjData) with default symmetries and grouping ", gi));
+          if (r.failed())
+            return r;
+        }
+    }
+  if (groups.size() >= 2)
+    stats().cls(">= 2 groupings compared");
+
+  // ---- (3) get_bin_efficiency ---------------------------------------------------------------------------------------------------------------
+  {
+    bool implemented = true;
+    try
+      {
+        Bin b0 = env.ix.bins[0];
+        (void)N0.get_bin_efficiency(b0);
+      }
+    catch (const stir_verif::AssertionFailure&)
+      {
+        throw;
+      }
+    catch (const std::exception&)
+      {
+        implemented = false; // documented "not implemented": the error() is accepted
+      }
+    VF_CHECK(implemented || !R.geb, R.label, ": get_bin_efficiency throws although every member implements it");
+    if (implemented)
+      {
+        stats().cls("get_bin_efficiency compared");
+        for (long i = 0; i < N; ++i)
+          {
+            const std::size_t u = std::size_t(i);
+            const double ge = N0.get_bin_efficiency(env.ix.bins[u]);
+            if (R.skip[u])
+              {
+                if (R.e[u] == 0.)
+                  VF_CHECK(ge == 0., R.label, ": get_bin_efficiency = ", ge, " at zero-efficiency ", bin_str(env.ix.bins[u]));
+                continue;
+              }
+            const double e1 = U1[u] / x1[u];
+            stats().maxi("max rel dev get_bin_efficiency vs e", std::fabs(ge - e1) / e1);
+            VF_CHECK(std::fabs(ge - e1) <= TOL_GEB * e1, R.label, ": get_bin_efficiency = ", ge, " but undo multiplies by ", e1, " at ", bin_str(env.ix.bins[u]));
+          }
+      }
+    else
+      stats().cls("get_bin_efficiency not implemented (error() accepted)");
+  }
+
+  // ---- (6) is_trivial ---------------------------------------------------------------------------------------------------------------
+  {
+    const bool triv = N0.is_trivial();
+    if (top == "trivial")
+      VF_CHECK(triv, "TrivialBinNormalisation does not report itself trivial");
+    if (triv)
+      {
+        stats().cls(R.exact_unit ? "is_trivial(): exact" : "is_trivial(): within the documented 1e-4");
+        for (long i = 0; i < N; ++i)
+          {
+            const std::size_t u = std::size_t(i);
+            if (R.skip[u] && !no_exclude)
+              {
+                // finding F3: components report trivial although virtual-crystal (and outside-fan) bins have efficiency 0
+                stats().count("is_trivial but zero-efficiency bins (finding F3, excluded)");
+                continue;
+              }
+            if (R.exact_unit)
+              VF_CHECK(U1[u] == x1[u] && A1[u] == x1[u], R.label, ": reports is_trivial() but changes ", bin_str(env.ix.bins[u]), ": x=", x1[u], " undo=", U1[u],
+                       " apply=", A1[u]);
+            else
+              // BinNormalisationPETFromComponents::is_trivial: "up to a tolerance of 1e-4" per component, up to 4 components per bin
+              VF_CHECK(std::fabs(U1[u] - x1[u]) <= 5e-4 * x1[u] && std::fabs(A1[u] - x1[u]) <= 5e-4 * x1[u], R.label,
+                       ": reports is_trivial() but changes ", bin_str(env.ix.bins[u]), " by more than the documented tolerance: x=", x1[u], " undo=", U1[u]);
+          }
+      }
+  }
+
+  // ---- (7) attenuation: anchor and additivity -------------------------------------------------------------------------------------------
+  if (top == "atten")
+    {
+      const std::string mode = spec["mode"];
+      stats().cls("attenuation image: " + mode);
+      if (mode == "zero")
+        for (long i = 0; i < N; ++i)
+          VF_CHECK(U1[std::size_t(i)] == x1[std::size_t(i)] && A1[std::size_t(i)] == x1[std::size_t(i)], "ACF(0) != 1 at ", bin_str(env.ix.bins[std::size_t(i)]));
+      if (mode == "cylinder")
+        {
+          // LORs through the axis (tangential position 0 has s = 0) in segment 0: ACF = exp(2 R mu / 10) within 2 voxels of path
+          const double Rmm = cylinder_radius(*env.image, spec), mu = double(float(mu_value(*env.image, spec)));
+          const double v = std::max(env.image->get_voxel_size().x(), env.image->get_voxel_size().y());
+          long n = 0;
+          if (Rmm > 2 * v && mu > 0)
+            for (long i = 0; i < N; ++i)
+              {
+                const Bin& b = env.ix.bins[std::size_t(i)];
+                if (b.segment_num() != 0 || b.tangential_pos_num() != 0)
+                  continue;
+                const double L = std::log(A1[std::size_t(i)] / x1[std::size_t(i)]) * 10. / mu;
+                ++n;
+                stats().maxi("max |path - 2R| / voxel (cylinder anchor)", std::fabs(L - 2 * Rmm) / v);
+                VF_CHECK(std::fabs(L - 2 * Rmm) <= 2 * v + 0.01 * 2 * Rmm, "cylinder anchor: attenuation path through the axis = ", L, " mm, expected 2R = ",
+                         2 * Rmm, " mm (voxel ", v, " mm, mu ", mu, " cm^-1) at ", bin_str(b));
+              }
+          stats().count("cylinder anchor bins", n);
+        }
+      if (c.contains("mu2"))
+        {
+          // ACF(mu1 + mu2) = ACF(mu1) ACF(mu2)
+          json sum = spec;
+          sum["mode"] = "sum";
+          sum["a"] = spec;
+          json s2 = spec;
+          for (auto it = c["mu2"].begin(); it != c["mu2"].end(); ++it)
+            s2[it.key()] = it.value();
+          sum["b"] = s2;
+          Group Gb, Gs;
+          Gb.fl = Gs.fl = G0.fl;
+          std::string reason;
+          if (make_group(Gb, s2, env, reason) && make_group(Gs, sum, env, reason))
+            {
+              stats().cls("attenuation additivity checked");
+              const std::vector<double> Ab = pass_viewgrams(*Gb.b.norm, Gb.sym, x1, false, env);
+              const std::vector<double> As = pass_viewgrams(*Gs.b.norm, Gs.sym, x1, false, env);
+              for (long i = 0; i < N; ++i)
+                {
+                  const std::size_t u = std::size_t(i);
+                  const double acf_a = A1[u] / x1[u], acf_b = Ab[u] / x1[u], acf_s = As[u] / x1[u];
+                  stats().maxi("max rel dev ACF(mu1+mu2) vs product", std::fabs(acf_s - acf_a * acf_b) / (acf_a * acf_b));
+                  VF_CHECK(std::fabs(acf_s - acf_a * acf_b) <= TOL_ATT * acf_a * acf_b, "ACF(mu1+mu2) = ", acf_s, " but ACF(mu1) ACF(mu2) = ", acf_a, " x ", acf_b,
+                           " at ", bin_str(env.ix.bins[u]));
+                }
+            }
+        }
+    }
+  return Result::pass();
+}
+
+// ---- generator -----------------------------------------------------------------------------------------------------------------------------
+json
+gen_member(Src& s, const std::string& k)
+{
+  json m;
+  m["k"] = k;
+  if (k == "projdata")
+    {
+      m["seed"] = s.seed64();
+      m["tof_factors"] = s.chance(1, 3); // TOF data with non-TOF factors is the frequent case
+      m["zeros"] = s.chance(1, 8);
+    }
+  else if (k == "atten")
+    {
+      m["mode"] = s.pick(std::vector<std::string>{ "random", "random", "random", "cylinder", "cylinder", "zero" });
+      m["seed"] = s.seed64();
+      m["mu_max"] = s.pick(std::vector<double>{ 0.02, 0.096, 0.096, 0.15, 0.2 });
+      m["R_frac"] = s.pick(std::vector<double>{ 1., 0.8, 0.6 });
+      m["lors"] = int(s.small(1, 3));
+      m["cyl_fov"] = s.chance(3, 4);
+      m["cache"] = int(s.pick(std::vector<int>{ 2, 2, 1, 0 }));
+    }
+  else if (k == "components")
+    {
+      m["seed"] = s.seed64();
+      m["eff"] = s.chance(4, 5);
+      m["geo"] = s.chance(1, 2);
+      m["block"] = s.chance(1, 3);
+      m["sym_per_block"] = s.coin();
+      m["near_one"] = int(s.pick(std::vector<int>{ 0, 0, 0, 0, 0, 0, 1, 2 }));
+    }
+  return m;
+}
+
+json
+gen(Src& s, int size)
+{
+  json c;
+  // class of the case
+  const int roll = int(s.range(0, 99));
+  const std::vector<std::string> member_kinds = { "trivial", "projdata", "projdata", "projdata", "atten", "atten", "components", "components" };
+  json spec;
+  if (roll < 6)
+    spec = gen_member(s, "trivial");
+  else if (roll < 30)
+    spec = gen_member(s, "projdata");
+  else if (roll < 52)
+    spec = gen_member(s, "atten");
+  else if (roll < 72)
+    spec = gen_member(s, "components");
+  else
+    {
+      spec["k"] = "chain";
+      const int nm = int(s.range(1, 3));
+      json ms = json::array();
+      for (int i = 0; i < nm; ++i)
+        ms.push_back(gen_member(s, s.pick(member_kinds)));
+      spec["members"] = ms;
+      spec["left_nested"] = s.coin();
+    }
+  const bool comp = contains_kind(spec, "components"), att = contains_kind(spec, "atten");
+  // geometry
+  const long max_bins = size < 40 ? 8000 : 25000;
+  for (int tries = 0;; ++tries)
+    {
+      if (comp && s.chance(1, 3))
+        {
+          // small scanner of a family with virtual crystals (see c20_fanref.h)
+          struct Fam
+          {
+            int type, v_tr, v_ax;
+          };
+          const std::vector<Fam> fams = { { int(Scanner::Siemens_mMR), 1, 0 }, { int(Scanner::Siemens_mCT), 1, 1 }, { int(Scanner::E1080), 1, 1 } };
+          const Fam f = fams[std::size_t(s.range(0, 2))];
+          json j;
+          j["family"] = f.type;
+          int p_tr, nb_tr, n, guard = 0;
+          do
+            {
+              p_tr = int(s.small(1, 5));
+              nb_tr = int(s.small(2, 8));
+              n = (p_tr + f.v_tr) * nb_tr;
+              if (++guard > 60)
+                {
+                  p_tr = 2;
+                  nb_tr = 4;
+                  n = 12;
+                }
+          } while (n % 2 != 0 || (p_tr * nb_tr) % 2 != 0 || n > 36);
+          const int p_ax = int(s.small(1, 2)), nb_ax = int(s.small(1, 3));
+          j["ndet"] = n;
+          j["rings"] = (p_ax + f.v_ax) * nb_ax - f.v_ax;
+          j["tr_cryst_per_block"] = p_tr + f.v_tr;
+          j["ax_cryst_per_block"] = p_ax + f.v_ax;
+          j["tr_blocks_per_bucket"] = int(s.pick(vg::divisors(nb_tr)));
+          j["ax_blocks_per_bucket"] = int(s.pick(vg::divisors(nb_ax)));
+          j["max_tang"] = n - 1;
+          j["radius"] = s.nice_real(50., 450.);
+          j["doi"] = s.coin() ? 0. : s.nice_real(0., 12.);
+          j["ring_spacing"] = s.nice_real(1., 8.);
+          j["bin_size"] = s.nice_real(1., 6.);
+          c["scanner"] = j;
+        }
+      else
+        {
+          vg::ScannerOpts so;
+          so.max_ndet = comp ? 32 : (size < 40 ? 24 : 40);
+          so.max_rings = 4;
+          // TOF: fine for trivial / from-projdata; attenuation and components reject TOF data at set_up (kept as a small class)
+          so.allow_tof = (!comp && !att) || s.chance(1, 12);
+          so.allow_blocks = false;
+          so.allow_tilt = true;
+          c["scanner"] = vg::gen_scanner(s, so);
+        }
+      shared_ptr<Scanner> sc = c20::make_scanner(c["scanner"]);
+      vg::PdiOpts po;
+      po.allow_arccorr = !comp;
+      json p;
+      if (c["scanner"].contains("family"))
+        {
+          p["span"] = 1;
+          p["max_delta"] = int(s.range(0, sc->get_num_rings() - 1));
+          p["views"] = sc->get_num_detectors_per_ring() / 2;
+          p["tang"] = int(s.range(2, sc->get_max_num_non_arccorrected_bins()));
+          p["arccorr"] = false;
+          p["tof_mash"] = 0;
+          p["trim"] = json::object();
+        }
+      else
+        p = vg::gen_pdi(s, *sc, po);
+      if (comp)
+        {
+          // BinNormalisationPETFromComponents: "does not handle compressed projection data (i.e. span etc)"; its set_up goes through
+          // make_fan_data_remove_gaps -> get_fan_info: span 1, no view mashing, not arc-corrected
+          p["span"] = 1;
+          p["views"] = sc->get_num_detectors_per_ring() / 2;
+          p["arccorr"] = false;
+          p["max_delta"] = std::min(p["max_delta"].get<int>(), sc->get_num_rings() - 1);
+          if (p["trim"].contains("tang_cut"))
+            p["trim"]["tang_cut"] = 0;
+          // FanProjData constructor precondition: fan smaller than the ring (after removal of the virtual crystals)
+          const Blocks B = Blocks::from(*sc);
+          for (int t = p["tang"].get<int>(); t >= 1; --t)
+            {
+              p["tang"] = t;
+              const int half_fan = std::min(-(t / 2) + t - 1, t / 2);
+              const int fan = 2 * half_fan + 1;
+              if (2 * ((fan - (fan / B.c_tr) * B.v_tr) / 2) + 1 < B.nphys)
+                break;
+            }
+        }
+      c["pdi"] = p;
+      long bins = 0;
+      try
+        {
+          bins = long(vg::make_pdi(sc, c["pdi"])->size_all());
+        }
+      catch (...)
+        {
+          bins = 0;
+        }
+      if (bins <= max_bins || tries > 8)
+        {
+          if (bins > max_bins)
+            {
+              c["pdi"]["tof_mash"] = 0;
+              c["pdi"]["max_delta"] = c["pdi"]["span"].get<int>() / 2;
+            }
+          break;
+        }
+    }
+  c["data_max_seg"] = s.chance(1, 5) ? int(s.range(0, 2)) : -1;
+  // image grid: voxel sizes deliberately not commensurate with the bin size (LORs never lie on voxel boundaries exactly)
+  vg::ImageOpts io;
+  io.max_xy = size < 40 ? 11 : 15;
+  json im = vg::gen_image(s, io);
+  im["vx_rel"] = s.pick(std::vector<double>{ 0.937, 0.937, 0.53, 1.871, 1.419, 0.7687 });
+  im["vy_rel"] = s.pick(std::vector<double>{ 0.937, 0.53, 1.871, 1.283 });
+  if (spec["k"] == "atten" && spec["mode"] == "cylinder")
+    {
+      // standard axial extent: every direct plane of segment 0 lies inside the image
+      im["z_div"] = 1;
+      im["nz_extra"] = 0;
+      im["z_shift_planes"] = 0;
+      im["nx"] = std::max(9, im["nx"].get<int>());
+      im["ny"] = std::max(9, im["ny"].get<int>());
+    }
+  c["image"] = im;
+  c["norm"] = spec;
+  if (spec["k"] == "atten" && spec["mode"] != "zero" && s.chance(1, 2))
+    c["mu2"] = { { "mode", s.coin() ? "random" : "cylinder" }, { "seed", s.seed64() }, { "R_frac", 0.5 }, { "mu_max", 0.07 } };
+  // groupings: the trivial one + one or two PET groupings
+  json gs = json::array();
+  gs.push_back({ { "trivial", true }, { "f", { 0, 0, 0, 0, 0 } } });
+  gs.push_back({ { "trivial", false }, { "f", { 1, 1, 1, 1, 1 } } });
+  if (s.coin())
+    {
+      json f = json::array();
+      for (int i = 0; i < 5; ++i)
+        f.push_back(s.coin() ? 1 : 0);
+      gs.push_back({ { "trivial", false }, { "f", f } });
+    }
+  if (s.chance(1, 4))
+    std::swap(gs[0], gs[1]);
+  c["groupings"] = gs;
+  c["seed_x"] = s.seed64();
+  c["file_backed"] = s.chance(1, 6);
+  return c;
+}
+
+bool
+nontrivial(const json& c)
+{
+  return c["norm"]["k"].get<std::string>() != "trivial" && c["groupings"].size() >= 2;
+}
+
+} // namespace
+
+const Property&
+the_property()
+{
+  static Property p;
+  p.id = "C13";
+  p.gen = gen;
+  p.check = check;
+  p.nontrivial = nontrivial;
+  p.rule = "normalisation class other than the trivial one and >= 2 symmetry groupings compared";
+  return p;
+}
